@@ -589,6 +589,9 @@ func (p *parser) parseIfExpression() ast.Expression {
 			}
 
 			expression.ElseBlock = p.parseBlockStatement()
+			// the else block ends the chain: what follows it is not another
+			// branch ("else {..} else if (c) {..}" used to run c before the else)
+			break
 		}
 	}
 
